@@ -76,7 +76,22 @@ def parseLOp : Sexp → Option LOp
   | .list [.atom "fill", x] => x.int?.map .fill
   | .list [.atom "reverse"] => some .reverse
   | .list [.atom "snap"] => some .snapshot
+  | .list [.atom "sort"] => some .sort
+  | .list [.atom "resize", n, x] => do some (.resize (← n.nat?) (← x.int?))
+  | .list (.atom "extend" :: xs) => (xs.mapM Sexp.int?).map .extend
+  | .list [.atom "insert", i, x] => do some (.insert (← i.nat?) (← x.int?))
+  | .list [.atom "remove", i] => i.nat?.map .remove
+  | .list [.atom "retain", x] => x.int?.map .retain
+  | .list [.atom "isempty"] => some .isEmpty
+  | .list (.atom "eq" :: xs) => (xs.mapM Sexp.int?).map .eqTo
+  | .list (.atom "swap" :: xs) => (xs.mapM Sexp.int?).map .swapWith
+  | .list [.atom "addall", d] => d.int?.map .addAll
   | _ => none
+
+def parsePairs (xs : List Sexp) : Option (List (Int × Int)) :=
+  xs.mapM (fun e => match e with
+    | .list [k, v] => do some ((← k.int?), (← v.int?))
+    | _ => none)
 
 def parseMOp : Sexp → Option MOp
   | .list [.atom "ins", k, v] => do some (.insert (← k.int?) (← v.int?))
@@ -86,6 +101,13 @@ def parseMOp : Sexp → Option MOp
   | .list [.atom "size"] => some .size
   | .list [.atom "clear"] => some .clear
   | .list [.atom "geti", i] => i.nat?.map .getIndex
+  | .list [.atom "ins1", k] => k.int?.map .insert1
+  | .list [.atom "put", k, v] => do some (.put (← k.int?) (← v.int?))
+  | .list [.atom "sort"] => some .sort
+  | .list (.atom "extend" :: es) => (parsePairs es).map .extend
+  | .list [.atom "isempty"] => some .isEmpty
+  | .list [.atom "snap"] => some .snapshot
+  | .list (.atom "eq" :: es) => (parsePairs es).map .eqTo
   | _ => none
 
 def parseInts : Sexp → Option (List Int)
